@@ -35,7 +35,7 @@ PROFILES = {
     "C19": {"g1": 0.35, "r": {"metrics": 6, "global": 2}},
     "C20": {"g1": 0.9, "w": {"addlinks": 8, "batch": 5, "create": 4, "rmprefix": 1.5, "delete": 1.5, "clear": 0.8}, "r": {"mostlinked": 8}},
 }
-BUDGET = {"quick": (120, 22), "thorough": (2500, 35)}
+BUDGET = {"quick": (150, 22), "thorough": (2500, 35)}
 # the translation tie (gen/gen_helpers.py -> lean/Gen): property -> theorems about the GENERATED helper functions
 GEN_TIES = {
     "C17": ["lru_variations_eq", "https_variation_eq", "C17_source_total", "C17_source_closed", "C17_source_local"],
